@@ -1006,18 +1006,21 @@ static void string_initializer(Token **rest, Token *tok, Initializer *init) {
 //
 // The above initializer sets x.c to 5.
 static void array_designator(Token **rest, Token *tok, Type *ty, int *begin, int *end) {
-  *begin = const_expr(&tok, tok->next);
-  if (*begin < 0)
+  // The index is checked before it is narrowed to int.
+  int64_t val = const_expr(&tok, tok->next);
+  if (val < 0)
     error_tok(tok, "array designator index is negative");
-  if (*begin >= ty->array_len)
+  if (val >= ty->array_len)
     error_tok(tok, "array designator index exceeds array bounds");
+  *begin = val;
 
   if (equal(tok, "...")) {
-    *end = const_expr(&tok, tok->next);
-    if (*end >= ty->array_len)
+    int64_t val2 = const_expr(&tok, tok->next);
+    if (val2 >= ty->array_len)
       error_tok(tok, "array designator index exceeds array bounds");
-    if (*end < *begin)
-      error_tok(tok, "array designator range [%d, %d] is empty", *begin, *end);
+    if (val2 < val)
+      error_tok(tok, "array designator range [%d, %ld] is empty", *begin, val2);
+    *end = val2;
   } else {
     *end = *begin;
   }
